@@ -15,6 +15,6 @@ base=$(env $demo_env timeout 300 /venv/bin/python $wt/seeded/$name/demo.py > /tm
 if ! git apply $seed/patch.diff 2>/tmp/mut/$name.apply.log; then echo "$name: PATCH DOES NOT APPLY"; cat /tmp/mut/$name.apply.log | head -3; cd /; git -C /repo worktree remove --force $wt; exit 3; fi
 mut=$(env $demo_env timeout 300 /venv/bin/python $wt/seeded/$name/demo.py > /tmp/mut/$name.mut.log 2>&1; echo $?)
 cd /verif
-out=$(VERIF_REPO=$wt timeout 1500 ./check $pid --tier $tier 2>&1 | grep -E "VIOLATION|KNOWN|$pid $tier" | tail -3)
+out=$(VERIF_REPO=$wt timeout 1500 ./check $pid --tier $tier $VERIF_CHECK_ARGS 2>&1 | grep -E "VIOLATION|KNOWN|$pid $tier" | tail -3)
 echo "$name: demo base=$base mutated=$mut | check: $out"
 git -C /repo worktree remove --force $wt
